@@ -24,17 +24,17 @@ Definition G_PERIOD := 30.
 
 Inductive entry :=
 | EVario | EVarioAxis | EStdBins | EFieldCall | EPostField | EApplyMNT | ERemoveTNM | ETransform
-| ESRFCall | EKrigeCond | EKrigeCall | ECondSRF | EFitVario | ENormalizer | EGenerator.
+| ESRFCall | EKrigeCond | EKrigeCall | ECondSRF | EFitVario | ENormalizer | EGenerator | EArrayFn.
 
 Definition entries : list entry :=
   [EVario; EVarioAxis; EStdBins; EFieldCall; EPostField; EApplyMNT; ERemoveTNM; ETransform;
-   ESRFCall; EKrigeCond; EKrigeCall; ECondSRF; EFitVario; ENormalizer; EGenerator].
+   ESRFCall; EKrigeCond; EKrigeCall; ECondSRF; EFitVario; ENormalizer; EGenerator; EArrayFn].
 
 Definition entry_id (e : entry) : nat :=
   match e with
   | EVario => 0 | EVarioAxis => 1 | EStdBins => 2 | EFieldCall => 3 | EPostField => 4 | EApplyMNT => 5
   | ERemoveTNM => 6 | ETransform => 7 | ESRFCall => 8 | EKrigeCond => 9 | EKrigeCall => 10
-  | ECondSRF => 11 | EFitVario => 12 | ENormalizer => 13 | EGenerator => 14
+  | ECondSRF => 11 | EFitVario => 12 | ENormalizer => 13 | EGenerator => 14 | EArrayFn => 15
   end.
 
 Definition entry_of_id (n : nat) : option entry := nth_error entries n.
@@ -42,26 +42,29 @@ Definition entry_of_id (n : nat) : option entry := nth_error entries n.
 (* ---- configuration spaces (meaning of each digit: see the program of the entry point) *)
 Definition dims (e : entry) : list nat :=
   match e with
-  | EVario      => [2; 3; 3; 2; 3; 2; 2; 2; 2; 2; 2; 2]
+  | EVario      => [2; 3; 3; 2; 3; 2; 2; 2; 2; 2; 2; 2; 3]
       (* pos f64/other; field ndarray f64 / other / masked array; bin_edges none/f64/other; mask;
          direction none/f64/other; angles; latlon; geo_scale<>1; mean+trend+normalizer; no_data;
-         sampling; structured mesh *)
+         sampling; structured mesh; numeric options default / cressie+bandwidth+angles_tol+bin_no+max_dist /
+         degree scale+other bandwidth+bin_no *)
   | EVarioAxis  => [2; 3; 2; 2; 2]
       (* data f64/other; ndarray / masked array without mask / masked array with mask;
          missing values present; no_data given; axis x (reshape is a view) / y (reshape copies) *)
-  | EStdBins    => [3; 2; 2; 2; 2]          (* pos layout; latlon; geo_scale; structured; bin_no+max_dist given *)
+  | EStdBins    => [3; 2; 2; 2; 4]          (* pos layout; latlon; geo_scale; structured; none / bin_no / max_dist / both given *)
   | EFieldCall  => [3; 4; 2; 3; 2; 2; 3]
       (* pos layout; field none / layout 0,1,2; post_process; store True/"a"/False; mean+trend+normalizer;
          structured; history: none / earlier call same pos / earlier call other pos *)
   | EPostField  => [3; 2; 3; 2]             (* field layout; process; save field/"a"/no; mean+trend+normalizer *)
   | EApplyMNT   => [2; 3; 2; 2; 2; 2]       (* pos; field layout; check_shape; stacked; mean+trend+norm; structured *)
   | ERemoveTNM  => [2; 3; 2; 2; 2; 2]
-  | ETransform  => [10; 2; 3; 2; 2]
+  | ETransform  => [10; 2; 3; 2; 2; 3; 3]
       (* method binary,discrete,boxcox,zinnharvey,force_moments,lognormal,uniform,arcsin,uquad,function;
-         process; store True/"b"/False; keep_mean; trend+normalizer set *)
-  | ESRFCall    => [3; 3; 2; 2; 3; 2; 3; 3]
+         process; store True/"b"/False; keep_mean; trend+normalizer set; numeric arguments default / two
+         non-default sets (shift, lmbda=0, conn, bounds, explicit value and threshold ARRAYS, user kwargs);
+         source field made by SRF / Krige / a caller array stored with post_process=False *)
+  | ESRFCall    => [3; 3; 2; 2; 3; 2; 4; 3]
       (* generator RandMeth/VectorField/Fourier; pos layout; structured; post_process; store; mean+..;
-         point_volumes none/f64/other; history *)
+         point_volumes none/f64 array/other array/non-zero scalar; history *)
   | EKrigeCond  => [3; 3; 3; 4; 2; 2; 2]
       (* cond_pos layout; cond_val layout; ext_drift none/f64/other; cond_err nugget/scalar/f64 array/other
          array; fit_variogram; mean+trend+normalizer; constructor / set_condition on an existing object *)
@@ -72,15 +75,18 @@ Definition dims (e : entry) : list nat :=
       (* pos layout; structured; post_process; store True/["x","y","z"]/False; krige_store; mean+..;
          nugget>0; history none / same pos (reuse branch) / other pos *)
   | EFitVario   => [3; 3; 4; 2; 2; 2]       (* x layout; y layout; weights none/"inv"/f64/other; directional; latlon; r2 *)
-  | ENormalizer => [7; 6; 2; 2; 2]          (* class; method; data f64/other; NaN present; out-of-range present *)
-  | EGenerator  => [3; 2; 2]                (* generator; pos f64/other; nugget *)
+  | ENormalizer => [7; 6; 2; 2; 2; 3]       (* class; method; data f64/other; NaN; out-of-range; parameters default / lmbda=0 / other *)
+  | EGenerator  => [3; 2; 2; 2]             (* generator; pos f64/other; nugget; non-default mean_u / sampling / mode grid *)
+  | EArrayFn    => [8; 2; 3]
+      (* gstools.transform.array_discrete,boxcox,zinnharvey,force_moments,to_lognormal,to_uniform,to_arcsin,
+         to_uquad; data f64/other; numeric arguments default / two non-default sets *)
   end.
 
 Definition nargs (e : entry) : nat :=
   match e with
   | EVario => 7 | EVarioAxis => 2 | EStdBins => 1 | EFieldCall => 2 | EPostField => 1 | EApplyMNT => 2
-  | ERemoveTNM => 2 | ETransform => 0 | ESRFCall => 2 | EKrigeCond => 4 | EKrigeCall => 2 | ECondSRF => 1
-  | EFitVario => 3 | ENormalizer => 1 | EGenerator => 3
+  | ERemoveTNM => 2 | ETransform => 2 | ESRFCall => 2 | EKrigeCond => 4 | EKrigeCall => 2 | ECondSRF => 1
+  | EFitVario => 3 | ENormalizer => 1 | EGenerator => 3 | EArrayFn => 3
   end.
 
 Definition nz (n : nat) : bool := negb (n =? 0).
@@ -183,7 +189,7 @@ Definition p_vario_axis (fx : bool) (c : list nat) : list prim :=
         ++ [New 14 4 [11]; Ret 14]).
 
 Definition p_std_bins (c : list nat) : list prim :=
-  if nz (dg c 4) then [New 11 1 []; Ret 11]
+  if dg c 4 =? 3 then [New 11 1 []; Ret 11]
   else (if nz (dg c 3) then [New 10 5 [0]] else conv 10 0 (dg c 0))
        ++ when (nz (dg c 1)) [New 10 2 [10]] ++ [New 11 3 [10]; Ret 11].
 
@@ -203,15 +209,23 @@ Definition p_mnt_tool (fx : bool) (c : list nat) : list prim :=
   ++ when (negb (nz (dg c 3))) [Alias 10 10]
   ++ mnt fx 10 0 ++ [Ret 10].
 
-Definition needs_normal (m : nat) : bool :=
-  match m with 0 | 3 | 4 | 6 | 7 | 8 => true | _ => false end.
+(* transforms that refuse a field with trend/normalizer when process=False: binary without `divide`,
+   discrete with thresholds="equal", zinnharvey, force_moments, uniform, arcsin, uquad *)
+Definition needs_normal (m opt : nat) : bool :=
+  match m with
+  | 0 => negb (opt =? 1)
+  | 1 => opt =? 2
+  | 3 | 4 | 6 | 7 | 8 => true
+  | _ => false
+  end.
 
 Definition p_transform (fx : bool) (c : list nat) : list prim :=
   let process := nz (dg c 1) in
-  when (negb process && nz (dg c 4) && needs_normal (dg c 0)) [Raise]
+  when (negb process && nz (dg c 4) && needs_normal (dg c 0) (dg c 5)) [Raise]
   ++ [Load 9 A_POS; Load 10 A_FIELD]
   ++ when process (mnt fx 10 9)
-  ++ [New 10 5 [10]]
+  ++ [New 10 5 ([10] ++ when ((dg c 0 =? 1) && nz (dg c 5)) [0] ++ when ((dg c 0 =? 1) && (dg c 5 =? 1)) [1])]
+      (* the array function; discrete reads the caller's value / threshold arrays *)
   ++ when process (mnt fx 10 9)
   ++ [Alias 10 10] ++ match store_name (dg c 2) A_FIELD A_B with Some a => [Store a 10] | None => [] end
   ++ [Ret 10].
@@ -219,7 +233,11 @@ Definition p_transform (fx : bool) (c : list nat) : list prim :=
 Definition p_srf_call (fx : bool) (c : list nat) : list prim :=
   set_pos (dg c 1) (nz (dg c 2)) (dg c 7) del_fields
   ++ [New 13 1 [12]; Alias 13 13]
-  ++ when (nz (dg c 6)) ([New 14 2 [1]] ++ (if dg c 0 =? 1 then [Raise] else [Write 13 3 [14]]))
+  ++ match dg c 6 with
+     | 0 => []
+     | 3 => [Write 13 3 []]                                          (* scalar point volume *)
+     | _ => [New 14 2 [1]] ++ (if dg c 0 =? 1 then [Raise] else [Write 13 3 [14]])
+     end
       (* an array of point volumes cannot be reshaped to a vector field: ValueError *)
   ++ post_field fx 13 (store_name (dg c 4) A_FIELD A_A) (nz (dg c 3))
   ++ [Ret 13].
@@ -299,6 +317,10 @@ Definition p_generator (c : list nat) : list prim :=
   ++ asarr 10 0 (dg c 1 =? 0) ++ [New 11 3 [10]] ++ when (nz (dg c 2)) [New 12 4 []]
   ++ [New 13 5 ([11] ++ when (nz (dg c 2)) [12]); Ret 13].
 
+Definition p_array_fn (c : list nat) : list prim :=
+  asarr 10 0 (dg c 1 =? 0)
+  ++ [New 11 1 ([10] ++ when ((dg c 0 =? 0) && nz (dg c 2)) [1] ++ when ((dg c 0 =? 0) && (dg c 2 =? 1)) [2]); Ret 11].
+
 Definition prog (fx : bool) (e : entry) (c : list nat) : list prim :=
   match e with
   | EVario => p_vario fx c
@@ -315,6 +337,7 @@ Definition prog (fx : bool) (e : entry) (c : list nat) : list prim :=
   | EFitVario => p_fit_vario c
   | ENormalizer => p_normalizer c
   | EGenerator => p_generator c
+  | EArrayFn => p_array_fn c
   end.
 
 Definition program := prog true.        (* the code as it is now *)
@@ -401,7 +424,7 @@ Lemma wf_all_true :
   forallb (fun e => forallb (fun c => wf_entry true e c && wf_entry false e c) (all_cfgs (dims e))) entries = true.
 Proof. vm_compute. reflexivity. Qed.
 
-Lemma total_cfgs_value : total_cfgs = 26472%Z.
+Lemma total_cfgs_value : total_cfgs = 57468%Z.
 Proof. vm_compute. reflexivity. Qed.
 
 Lemma cfg_count_spec e : Z.of_nat (length (all_cfgs (dims e))) = cfg_count e.
@@ -456,10 +479,10 @@ Qed.
 
 (* the pinned tree: each of the four defects is a configuration whose effect program writes a buffer
    of the caller / of the earlier history (these are the regression cases of the harness) *)
-Definition cfg_vario_latlon := [0; 0; 1; 0; 0; 0; 1; 1; 0; 0; 0; 0].
+Definition cfg_vario_latlon := [0; 0; 1; 0; 0; 0; 1; 1; 0; 0; 0; 0; 0].
 Definition cfg_axis_mask := [0; 2; 1; 0; 0].
 Definition cfg_field_call := [0; 1; 1; 0; 1; 0; 0].
-Definition cfg_transform := [5; 1; 1; 1; 1].
+Definition cfg_transform := [5; 1; 1; 1; 1; 0; 0].
 
 Lemma pinned_tree_refuted :
   written_initial false EVario cfg_vario_latlon = [3]          (* the caller's bin_edges *)
@@ -468,7 +491,7 @@ Lemma pinned_tree_refuted :
   /\ written_initial false EPostField [0; 1; 0; 1] = [0]
   /\ written_initial false EApplyMNT [0; 0; 1; 0; 1; 0] = [1]
   /\ written_initial false ERemoveTNM [0; 0; 1; 0; 1; 0] = [1]
-  /\ written_initial false ETransform cfg_transform = [1]       (* the stored 'field' (attribute cell) *)
+  /\ written_initial false ETransform cfg_transform = [3]       (* the stored 'field' (attribute cell) *)
   /\ written_initial true EVario cfg_vario_latlon = []
   /\ written_initial true EVarioAxis cfg_axis_mask = []
   /\ written_initial true EFieldCall cfg_field_call = []
